@@ -407,6 +407,33 @@ def gen_cases():
                 cs.append(mk("mixed-arith-result", D, T, f"(x{op1}y){op2}2:vars:{a},{b}",
                              f"let x = {a}\nlet y = {b}\nlet t = x {op1} y\nlet r = t {op2} 2\n",
                              refb + f"let r = g2(g1(dyn({a}), dyn({b})), dyn(2))\n"))
+    # sized numeric types: int-like OP float-like with honest values, the result then used with an int.
+    # The run-time value of the mixed operation is a float (FFG opcodes) for EVERY integer x float type pair, so
+    # sema must type it as a float for every pair (seeded change C06_3 dropped f32).  Every typed position:
+    # parameters, annotated locals, annotated returns; both operand orders.
+    ITS = ("int", "i8", "i16", "i32", "i64", "u8", "u16", "u32", "u64")
+    FTS = ("float", "f32", "f64")
+    for IT in ITS:
+        for FT in FTS:
+            for op1 in ARITH:
+                for op2 in ("+", "*", "<", ">", "=="):
+                    if IT not in ("int", "i32", "u8") and (op1, op2) not in (("*", "+"), ("/", ">"), ("+", "=="), ("-", "*"), ("%", "<")):
+                        continue        # full operator product for three int types, a diagonal for the others
+                    refb = (f"fn g1(a, b) {{ let r = a {op1} b\n return r }}\nfn g2(a, b) {{ let r = a {op2} b\n return r }}\n")
+                    for order, ref in (("if", "let r = g2(g1(dyn(7), dyn(2.5)), dyn(2))\n"), ("fi", "let r = g2(g1(dyn(2.5), dyn(7)), dyn(2))\n")):
+                        e = f"x {op1} y" if order == "if" else f"y {op1} x"
+                        D = f"{IT}*{FT}"
+                        cs.append(mk("sized-mixed-arith", D, D, f"param:{order}:({e}){op2}2",
+                                     f"fn f(x: {IT}, y: {FT}) {{ let m = {e}\n let r = m {op2} 2\n return r }}\nlet r = f(7, 2.5)\n",
+                                     refb + ref))
+                        cs.append(mk("sized-mixed-arith", D, D, f"local:{order}:({e}){op2}2",
+                                     f"let x: {IT} = 7\nlet y: {FT} = {'dyn(2.5)' if FT == 'f32' else '2.5'}\nlet m = {e}\nlet r = m {op2} 2\n",
+                                     refb + ref))
+                        e2 = e.replace("x", "gi()").replace("y", "gf()")
+                        cs.append(mk("sized-mixed-arith", D, D, f"return:{order}:({e}){op2}2",
+                                     f"fn gi() -> {IT} {{ let v = 7\n return v }}\nfn gf() -> {FT} {{ let v = 2.5\n return v }}\n"
+                                     f"let m = {e2}\nlet r = m {op2} 2\n",
+                                     refb + ref))
     # a top-level name captured by a closure as int, then rebound to a value of another type (found by the C02 tie)
     for T, vs in VALS.items():
         for v in vs[:2]:
@@ -497,7 +524,7 @@ def classify(case, o, r):
                 f"the all-dynamic reference program itself misreads a value (class {rcl}, mismatches {rm}, {rdet[:80]})")
     if rcl == "compile-error":
         return ("skip", "reference-rejected")
-    same = (case["D"], case["T"]) in SAME_TYPE
+    same = (case["D"], case["T"]) in SAME_TYPE or case["position"] == "sized-mixed-arith"
     pos = case["position"]
     if ocl == "panic" or om > 0:
         how = "panic: " + odet[:60] if ocl == "panic" else f"{om} unchecked-accessor reads of a wrong-kind value (result {oout[:40]!r})"
@@ -649,7 +676,8 @@ def run(ctx):
                 "float specials, non-canonical NaNs) and random words; immediates 0..255; loop ops over 13 boundary ints^3 + mistyped registers",
         "select": "16 operators x 42 x 42 resolved types (every base type, Uncertain(base), Uncertain(Uncertain(int/float)))",
         "pipeline": "templates {annotated param (lit/reg/reversed), inferred param, annotated return, mixed int*float, for start/end/step, "
-                    "while bound, typed array load/store, nested mixed arithmetic, rebound global captured by a closure} x "
+                    "while bound, typed array load/store, nested mixed arithmetic, sized int (i8..u64) x sized float (f32/f64) arithmetic in "
+                    "parameters / annotated locals / annotated returns whose result feeds an int operation, rebound global captured by a closure} x "
                     "{int,float,bool,null,string,array,function} values, laundered through untyped code and passed directly, x 16 operators, "
                     "+ seeded random values/constants, x -O0..-O3 x {dev,release}",
         "by_position": {p: sum(1 for c in sel if c["position"] == p) for p in sorted({c["position"] for c in sel})},
